@@ -33,7 +33,7 @@ func contextDependent(src string) bool {
 
 func c01Prop(rec *ev.Recorder) func(t *rapid.T) {
 	return func(t *rapid.T) {
-		g := &gen.G{T: t}
+		g := &gen.G{T: t, Ill: rapid.SampledFrom([]int{0, 0, 10, 40}).Draw(t, "ill")}
 		stmts := g.Session()
 		discard := rapid.Bool().Draw(t, "discard")
 		text := joinStmts(stmts)
